@@ -133,7 +133,9 @@ class ExpandedTraceback:
         self.full_traceback = full_traceback
         self.hide_filenames = hide_filenames
         self.show_filenames = show_filenames
-        self.line_number = traceback.extract_tb(exc_info[2])[-1][1]
+        innermost_frame = traceback.extract_tb(exc_info[2])[-1]
+        # Report the line within the whole file, even if only a section of it was executed
+        self.line_number = innermost_frame[1] + line_offsets.get(innermost_frame[0], 0)
         self.original_code_lines = original_code_lines
         self.student_files = student_files
 
